@@ -37,6 +37,11 @@ fn main() {
         usage();
     }
     let prop = args[1].to_uppercase();
+    if prop == "P1DUMP" {
+        // development aid: vmc p1dump "<source>"
+        c12::dump_p1(args.get(2).map(|s| s.as_str()).unwrap_or_else(|| usage()));
+        return;
+    }
     let mut tier = match std::env::var("VERIF_TIER").as_deref() {
         Ok("thorough") => Tier::Thorough,
         _ => Tier::Quick,
